@@ -1,6 +1,7 @@
 """Table of registered checks (source of MANIFEST.json, see tools/gen_manifest.py)."""
 
-FIX_COMMITS = ['c5b9684 (C05 DataReader EOD==0)']
+FIX_COMMITS = ['c5b9684 (C05 DataReader EOD==0)', 'c3bb002 (C17 ESC prefix on 1xx/3xx)', '832276a (C18 NUL in PROXY v1 address)',
+               '57b9489 (C20 flatten raising on over-long 8-bit header lines)']
 
 ENGINES = [
     {'name': 'runner', 'path': 'vf/runner.py', 'serves_properties': [],
@@ -21,6 +22,36 @@ CHECKS = {
         'design_ref': 'DESIGN.md section 2 C05',
         'note': 'sender parts cut only after LF; bounded length for the exhaustive part; absence beyond the bounds is not established',
     },
+}
+
+CHECKS['C17'] = {
+    'engine': 'scripted-socket',
+    'level': 'exploration',
+    'technique': 'property-based testing: Hypothesis round trip Reply.send -> IO.recv_reply/Reply.recv under generated cuts; exhaustive malformed strings vs reference line grammar',
+    'text': 'replies rendered by the library are parsed back (IO level and Reply level) to the same code and CRLF-normalised text with exact '
+            'consumption under generated segmentations; every string over a 9-letter alphabet up to length 6/7 is classified by a reference '
+            'grammar as valid / malformed / incomplete and the parser must return / raise BadReply / ask for more data accordingly',
+    'design_ref': 'DESIGN.md section 2 C17',
+    'note': 'codes outside 1xx-5xx and a bare "ddd" line are gray at IO level; length-bounded exhaustive part',
+}
+CHECKS['C18'] = {
+    'engine': 'runner',
+    'level': 'exploration',
+    'technique': 'property-based testing: differential against a strict reference PROXY parser, generated short reads, exhaustive single-byte substitutions',
+    'text': 'builder-generated valid v1/v2 headers (+payload) through short-read sockets into all three mix-ins must yield exactly the encoded '
+            'addresses and consume exactly the header; every single-byte substitution / truncation of 8 sample headers and random corruptions must '
+            'end with the invalid address (or a dropped LOCAL connection), no escaping exception, and bounded consumption',
+    'design_ref': 'DESIGN.md section 2 C18',
+    'note': 'int()/inet_pton leniency and unassigned v2 nibbles are gray; reference parser written from the HAProxy spec is trusted',
+}
+CHECKS['C20'] = {
+    'engine': 'runner',
+    'level': 'exploration',
+    'technique': 'property-based testing: Hypothesis structured messages vs reference field parser (round trip, copy, pickle, fixed point), arbitrary bytes never raise, 7-bit conversion decoded by stdlib',
+    'text': 'well-formed header blocks + arbitrary bodies must flatten to the identical body and the same (name, value) field list; copy / pickle / re-parse '
+            'agree; arbitrary byte strings never raise; 7-bit conversion yields ASCII that decodes to the same text or refuses without an encoder',
+    'design_ref': 'DESIGN.md section 2 C20',
+    'note': 'field bodies exclude C0 controls that str.splitlines treats as line breaks; stdlib email package trusted as decoder',
 }
 
 NOT_APPLICABLE = {}
